@@ -1,0 +1,72 @@
+//go:build verif
+
+// Machine-checked contracts for package piecerequest (comment-only; read by /verif/govc).
+// Property C15 (piece request bookkeeping).
+
+package piecerequest
+
+// A request blocks a new reservation of its piece for peer p while it is pending and not yet
+// expired on the manager's clock, if it belongs to p or duplicates are not allowed.
+//@ specfunc rlive(m *Manager, r *Request) bool = r.Status == StatusPending && !(m.clock.now > r.sentAt + m.timeout)
+//@ specfunc rblocks(m *Manager, r *Request, p core.PeerID, dups bool) bool = rlive(m, r) && (r.PeerID == p || !dups)
+
+//@ lockinv Manager.RWMutex self m guards contents requests, contents requestsByPeer, allmem *Request, allmaps map[int]*Request, type Request
+//@   invariant slices_ok: forall i int :: i in m.requests ==> rowok(m, i)
+
+//@ specfunc mshape(m *Manager) bool = m != nil && m.requests != nil && m.requestsByPeer != nil
+
+// validRequest runs with the manager lock held by ReservePieces.
+//@ func Manager.validRequest
+//@   requires mshape(m)
+//@   requires forall j int :: 0 <= j && j < len(m.requests[pieceIdx]) ==> m.requests[pieceIdx][j] != nil
+//@   modifies m.clock.now
+//@   ensures sound: result ==> (forall j int :: 0 <= j && j < len(m.requests[pieceIdx]) ==> !rblocks(m, m.requests[pieceIdx][j], peerID, allowDuplicates))
+//@   ensures own_request_blocks: forall j int :: 0 <= j && j < len(m.requests[pieceIdx]) && rlive(m, m.requests[pieceIdx][j]) && m.requests[pieceIdx][j].PeerID == peerID ==> !result
+//@   ensures clock: m.clock.now >= old(m.clock.now)
+//@   loop 0 invariant scanned: forall j int :: 0 <= j && j <= rangeindex ==> !rblocks(m, m.requests[pieceIdx][j], peerID, allowDuplicates)
+//@   loop 0 invariant idx: 0 - 1 <= rangeindex && rangeindex < len(m.requests[pieceIdx])
+//@   loop 0 invariant clock: m.clock.now >= old(m.clock.now)
+
+//@ func Manager.markStatus
+//@   requires mshape(m)
+//@   modifies every Request.Status
+//@   ensures marked: forall j int :: 0 <= j && j < len(m.requests[i]) && m.requests[i][j].PeerID == peerID ==> m.requests[i][j].Status == s
+//@   ensures others: forall r *Request :: r.Status == old(r.Status) || (r.PeerID == peerID && r.Status == s)
+//@   loop 0 invariant marked: forall j int :: 0 <= j && j <= rangeindex ==> (m.requests[i][j].PeerID == peerID ==> m.requests[i][j].Status == s)
+//@   loop 0 invariant others: forall r *Request :: r.Status == old(r.Status) || (r.PeerID == peerID && r.Status == s)
+//@   loop 0 invariant idx: 0 - 1 <= rangeindex && rangeindex < len(m.requests[i])
+//@   loop 0 invariant stable: forall j int :: 0 <= j && j < len(m.requests[i]) ==> m.requests[i][j] != nil && allocated(m.requests[i][j])
+
+//@ specfunc rowok(m *Manager, i int) bool = 0 <= len(m.requests[i]) && len(m.requests[i]) <= cap(m.requests[i]) && (cap(m.requests[i]) == 0 || allocated(m.requests[i])) && (forall j int :: 0 <= j && j < len(m.requests[i]) ==> m.requests[i][j] != nil && allocated(m.requests[i][j]))
+//@ specfunc rowclean(m *Manager, i int, p core.PeerID) bool = forall j int :: 0 <= j && j < len(m.requests[i]) ==> m.requests[i][j].PeerID != p
+//@ specfunc bypeer_kept(m *Manager, peerID core.PeerID) bool = !(peerID in m.requestsByPeer) && (forall p core.PeerID :: p != peerID ==> ((p in m.requestsByPeer) <==> old(p in m.requestsByPeer)) && m.requestsByPeer[p] == old(m.requestsByPeer[p]))
+
+//@ func Manager.ClearPeer
+//@   requires mshape(m)
+//@   modifies map m.requests, map m.requestsByPeer
+//@   ensures gone_by_peer: !(peerID in m.requestsByPeer)
+//@   ensures gone_by_piece: forall i int :: i in m.requests ==> rowclean(m, i, peerID)
+//@   ensures same_pieces: forall i int :: (i in m.requests) <==> old(i in m.requests)
+//@   ensures others_by_peer: bypeer_kept(m, peerID)
+//@   loop 0 invariant dom: forall i int :: (i in m.requests) <==> old(i in m.requests)
+//@   loop 0 invariant rows: forall i int :: i in m.requests ==> rowok(m, i)
+//@   loop 0 invariant done: forall i int :: seen0(i) && i in m.requests ==> rowclean(m, i, peerID)
+//@   loop 0 invariant by_peer: bypeer_kept(m, peerID)
+//@   loop 1 invariant dom: forall i2 int :: (i2 in m.requests) <==> old(i2 in m.requests)
+//@   loop 1 invariant rows: forall i2 int :: i2 in m.requests ==> rowok(m, i2)
+//@   loop 1 invariant done: forall i2 int :: seen0(i2) && i2 != i && i2 in m.requests ==> rowclean(m, i2, peerID)
+//@   loop 1 invariant cur: seen0(i) && i in m.requests && (forall j int :: 0 <= j && j < len(rs) ==> rs[j] != nil && allocated(rs[j]))
+//@   loop 1 invariant kept_ok: forall k int :: 0 <= k && k < len(kept) ==> kept[k] != nil && allocated(kept[k]) && kept[k].PeerID != peerID
+//@   loop 1 invariant kept_fresh: fresh(kept) && (cap(kept) == 0 || allocated(kept))
+//@   loop 1 invariant sep: forall i2 int :: i2 in m.requests ==> cap(kept) == 0 || cap(m.requests[i2]) == 0 || base(kept) != base(m.requests[i2])
+//@   loop 1 invariant idx: 0 - 1 <= rangeindex && rangeindex < len(rs)
+//@   loop 1 invariant by_peer: bypeer_kept(m, peerID)
+
+//@ func Manager.Clear
+//@   requires mshape(m)
+//@   modifies *
+//@   ensures gone: !(i in m.requests)
+//@   ensures gone_by_peer: forall p core.PeerID :: p in m.requestsByPeer ==> !(i in m.requestsByPeer[p])
+//@   ensures others_by_piece: forall k int :: k != i ==> ((k in m.requests) <==> old(k in m.requests)) && m.requests[k] == old(m.requests[k])
+//@   loop 0 invariant gone: !(i in m.requests) && (forall k int :: k != i ==> ((k in m.requests) <==> old(k in m.requests)) && m.requests[k] == old(m.requests[k]))
+//@   loop 0 invariant done: forall p core.PeerID :: seen0(p) && p in m.requestsByPeer ==> !(i in m.requestsByPeer[p])
